@@ -53,6 +53,8 @@ def run_schedule(make, schedule):
             g.done = True
             if act == "ok":
                 g.val = ("result", i, len(obs))
+            elif act == "errT":
+                g.exc = TypeError(("boom", i, len(obs)))
             else:
                 g.exc = Boom(("boom", i, len(obs)))
             n0 = len(log)
@@ -62,7 +64,7 @@ def run_schedule(make, schedule):
             except StopIteration as e:
                 finished[i] = ("ret", e.value)
                 obs.append(("returned", i, e.value == g.val, len(log) - n0))
-            except Boom as e:
+            except (Boom, TypeError) as e:
                 finished[i] = ("exc", e)
                 obs.append(("raised", i, e is g.exc, len(log) - n0))
             except Exception as e:  # noqa
@@ -71,7 +73,7 @@ def run_schedule(make, schedule):
     enabled = [("start", i) for i in range(len(cors)) if i not in started]
     for i, g in started.items():
         if i not in finished and g is not None and not g.done:
-            enabled += [("ok", i), ("err", i)]
+            enabled += [("ok", i), ("err", i), ("errT", i)]
     for c in cors:
         c.close()
     return obs, enabled, log, info, finished
